@@ -63,25 +63,19 @@ static char const* MakeSymbolic(
 }
 
 static Boolean RetrieveData(LargeWord Address, Byte* pBuffer, unsigned Count) {
-    LargeWord Trans;
+    /* the address space ends at $ffff, and the code area [Address, Address + CodeLen)
+       is listed without wrapping: an instruction does not continue at address 0, it
+       is cut like one at the end of the loaded image */
 
-    while (Count > 0) {
-        Trans = 0x10000 - Address;
-        if (Count < Trans) {
-            Trans = Count;
-        }
-        if (!RetrieveCodeFromChunkList(&CodeChunks, Address, pBuffer, Trans)) {
-            char NumString[50];
+    if ((Address + Count > 0x10000)
+        || !RetrieveCodeFromChunkList(&CodeChunks, Address, pBuffer, Count)) {
+        char NumString[50];
 
-            HexString(NumString, sizeof(NumString), Address, 0);
-            fprintf(stderr, "cannot retrieve code @ 0x%s\n", NumString);
-            return False;
-        }
-        pBuffer += Trans;
-        Count -= Trans;
-        Address = (Address + Trans) & 0xffff;
-        nData += Trans;
+        HexString(NumString, sizeof(NumString), Address, 0);
+        fprintf(stderr, "cannot retrieve code @ 0x%s\n", NumString);
+        return False;
     }
+    nData += Count;
     return TRUE;
 }
 
